@@ -9,9 +9,12 @@ import (
 	"hash/fnv"
 	"os"
 	"path/filepath"
+	"runtime"
 	"runtime/debug"
 	"sort"
+	"strconv"
 	"strings"
+	"syscall"
 	"time"
 )
 
@@ -173,7 +176,7 @@ func (c *Ctx) Exec(id string, nontrivial bool, f func() Verdict) {
 		c.P.Evaluations++
 		c.P.Capped = true
 		c.P.CapNote = "a case did not return (hang); this worker stopped enumerating after it"
-		v = Verdict{OK: false, Detail: fmt.Sprintf("HANG: the case did not return within %v (cases of this check normally take milliseconds)", c.CaseTimeout)}
+		v = Verdict{OK: false, Detail: fmt.Sprintf("HANG: the case did not return within %v of CPU time (cases of this check normally take milliseconds)", c.CaseTimeout)}
 		rec := ViolationRec{CaseID: id, Detail: v.Detail}
 		rec.Replay = c.writeReplay(id, v)
 		c.P.Violations = append(c.P.Violations, rec)
@@ -267,13 +270,57 @@ func withWatchdog(f func() Verdict, d time.Duration) (v Verdict, hung bool) {
 		return safely(f), false
 	}
 	ch := make(chan Verdict, 1)
-	go func() { ch <- safely(f) }()
-	select {
-	case v = <-ch:
-		return v, false
-	case <-time.After(d):
-		return Verdict{}, true
+	tidCh := make(chan int, 1)
+	go func() {
+		// the case runs on its own OS thread so that the CPU time IT consumes can be read
+		runtime.LockOSThread()
+		defer runtime.UnlockOSThread()
+		tidCh <- syscall.Gettid()
+		ch <- safely(f)
+	}()
+	// The limit d is on the CPU time of the case's thread (a case that spins forever burns it; a
+	// case that is merely starved by other load on the machine does not), with a wall-clock
+	// backstop of 20x for a case that blocks without using the CPU. A plain wall-clock limit
+	// raised a false alarm on a loaded machine (DESIGN 9.4).
+	tid := <-tidCh
+	start := time.Now()
+	tick := time.NewTicker(250 * time.Millisecond)
+	defer tick.Stop()
+	for {
+		select {
+		case v = <-ch:
+			return v, false
+		case <-tick.C:
+			cpu, ok := threadCPU(tid)
+			if (ok && cpu > d) || (!ok && time.Since(start) > d) || time.Since(start) > 20*d {
+				return Verdict{}, true
+			}
+		}
 	}
+}
+
+// threadCPU: user + system CPU time consumed by thread tid of this process
+// (/proc/self/task/<tid>/stat, fields 14 and 15, in clock ticks of 10 ms).
+func threadCPU(tid int) (time.Duration, bool) {
+	b, err := os.ReadFile(fmt.Sprintf("/proc/self/task/%d/stat", tid))
+	if err != nil {
+		return 0, false
+	}
+	str := string(b)
+	i := strings.LastIndexByte(str, ')') // the command name may contain spaces
+	if i < 0 {
+		return 0, false
+	}
+	f := strings.Fields(str[i+1:])
+	if len(f) < 13 {
+		return 0, false
+	}
+	ut, err1 := strconv.ParseInt(f[11], 10, 64)
+	st, err2 := strconv.ParseInt(f[12], 10, 64)
+	if err1 != nil || err2 != nil {
+		return 0, false
+	}
+	return time.Duration(ut+st) * 10 * time.Millisecond, true
 }
 
 const unstableNote = "[outcome depends on earlier calls in the same process: re-executing this case, which builds all its objects afresh, gives a different verdict - hidden state shared between calls] "
